@@ -96,10 +96,20 @@ def exempt(c, impl, model):
     return model == "OOB" or (c.kind == "key" and model == "BAD")
 
 
+def src_norm(c, impl, src):
+    """implementation vs translated source: inputs on which the translated source reports undefined behaviour (reads
+    outside hex_tab, writes past the key buffer) are compared only by the fact, not by what the C++ happened to do"""
+    if src.startswith("ERR UB") or src.startswith("OVERFLOW"):
+        if c.kind == "key":
+            return ("OVERFLOW" if impl.startswith("OVERFLOW") else "UB-any", "OVERFLOW" if src.startswith("OVERFLOW") else "UB-any")
+        return ("UB", "UB")
+    return impl, src
+
+
 def run(ck):
     ck.prove("Properties_C16", THEOREMS)
     exe = ck.impl_driver()
     cases = gen_cases(ck)
-    differential(ck, exe, cases, oracle, corr_exempt=exempt)
+    differential(ck, exe, cases, oracle, corr_exempt=exempt, src=True, src_norm=src_norm)
     return finish_proof(ck, rule="encoder: all lengths 0..50 x random content + every sextet value in every symbol position; decoder: encodings of all lengths 0..39 and random alphabet strings; validator/key: 24-char strings with 0..4 pads, other lengths, encodings of 13..18 bytes, mutated valid keys (pad in the middle, non-alphabet bytes incl. >=128). distinct = distinct case lines",
                         assumptions=["isalnum evaluated in the C locale (the program never calls setlocale)"])
